@@ -1,6 +1,6 @@
-SPECIFICATION GenSpec
+SPECIFICATION Spec
 CONSTANTS
-  MaxRounds = 3
+  MaxRounds = 2
   MaxDepth = 3
   MaxDefects = 2
   MaxRenames = 1
@@ -9,5 +9,10 @@ CONSTANTS
   Embeds = {"none", "genuine", "foreign"}
 INVARIANT Agree
 INVARIANT ReportsTarget
-INVARIANT EmitB
+INVARIANT OffPathIrrelevant
+INVARIANT NamesFirstBad
+INVARIANT NamesIrrelevant
+INVARIANT LoadErrorIffNoPath
+INVARIANT Bounded
+PROPERTY Terminates
 CHECK_DEADLOCK FALSE
